@@ -318,6 +318,15 @@ class Config:
                 if op == "LtE" and b.is_const() and b.const_value() == 0 and not a.is_const():
                     r = self.truth(a)
                     return None if r is None else (not r)
+                if op == "GtE" and a.is_const() and a.const_value() == 0 and not b.is_const():
+                    r = self.truth(b)
+                    return None if r is None else (not r)
+                # the same against 1, for a count / a flag (a non-negative integer): x >= 1, 1 <= x are `x`; x < 1, 1 > x are `not x`
+                for x, y, o in ((a, b, op), (b, a, _SWAP[op])):
+                    if y.is_const() and y.const_value() == 1 and not x.is_const() and o in ("GtE", "Lt"):
+                        r = self.truth(x)
+                        if r is not None:
+                            return r if o == "GtE" else (not r)
                 r = self._ordered(op, a, b)
                 if r is not None:
                     return r
@@ -454,6 +463,99 @@ class Config:
 
 
 # ------------------------------------------------------------------------------------------------ the evaluator
+class Record(tuple):
+    """an instance of a namedtuple class: a sequence held item by item whose items also go by field name"""
+    fields = ()
+
+    @classmethod
+    def make(cls, fields, values):
+        r = cls(values)
+        r.fields = tuple(fields)
+        return r
+
+
+def _namedtuples(ctx, rel):
+    """{name: (field names, {field: default node})} for the module-level names of `rel` bound once to `namedtuple("X", fields)` with literal fields"""
+    cache = ctx.__dict__.setdefault("_c02_namedtuples", {})
+    if rel in cache:
+        return cache[rel]
+    out, count = {}, {}
+    try:
+        tree = ctx.src.mod(rel).tree
+    except Exception:  # noqa
+        cache[rel] = {}
+        return cache[rel]
+    for st in tree.body:
+        for t in (st.targets if isinstance(st, ast.Assign) else []):
+            for x in ast.walk(t):
+                if isinstance(x, ast.Name):
+                    count[x.id] = count.get(x.id, 0) + 1
+        if isinstance(st, ast.Assign) and len(st.targets) == 1 and isinstance(st.targets[0], ast.Name) and isinstance(st.value, ast.Call) \
+                and dotted(st.value.func) in ("namedtuple", "collections.namedtuple") and len(st.value.args) == 2:
+            fa = st.value.args[1]
+            fields = None
+            if isinstance(fa, ast.Constant) and isinstance(fa.value, str):
+                fields = fa.value.replace(",", " ").split()
+            elif isinstance(fa, (ast.Tuple, ast.List)) and all(isinstance(e, ast.Constant) and isinstance(e.value, str) for e in fa.elts):
+                fields = [e.value for e in fa.elts]
+            dflt = {}
+            ok = fields is not None and all(f.isidentifier() for f in fields) and len(set(fields)) == len(fields)
+            for k in st.value.keywords:
+                if k.arg == "defaults" and isinstance(k.value, (ast.Tuple, ast.List)) and ok and len(k.value.elts) <= len(fields):
+                    dflt = dict(zip(fields[len(fields) - len(k.value.elts):], k.value.elts))
+                elif k.arg not in ("module",):
+                    ok = False
+            if ok:
+                out[st.targets[0].id] = (fields, dflt)
+    cache[rel] = {k: v for k, v in out.items() if count.get(k) == 1}
+    return cache[rel]
+
+
+def _module_lambdas(ctx, rel):
+    """{name: value node} for module-level names of `rel` bound once to a lambda or to a display (dict / tuple / list) that contains lambdas:
+    function tables a clean-up moved to module level"""
+    cache = ctx.__dict__.setdefault("_c02_modlambdas", {})
+    if rel in cache:
+        return cache[rel]
+    out, count = {}, {}
+    try:
+        tree = ctx.src.mod(rel).tree
+    except Exception:  # noqa
+        cache[rel] = {}
+        return cache[rel]
+    for st in tree.body:
+        tg = st.targets if isinstance(st, ast.Assign) else ([st.target] if isinstance(st, (ast.AnnAssign, ast.AugAssign)) else [])
+        for t in tg:
+            for x in ast.walk(t):
+                if isinstance(x, ast.Name):
+                    count[x.id] = count.get(x.id, 0) + 1
+        v = getattr(st, "value", None)
+        if isinstance(st, (ast.Assign, ast.AnnAssign)) and len(tg) == 1 and isinstance(tg[0], ast.Name) and v is not None \
+                and isinstance(v, (ast.Lambda, ast.Dict, ast.Tuple, ast.List)) and any(isinstance(x, ast.Lambda) for x in ast.walk(v)):
+            inner = v.values if isinstance(v, ast.Dict) else (v.elts if isinstance(v, (ast.Tuple, ast.List)) else [v])
+            if all(isinstance(x, (ast.Lambda, ast.Constant, ast.Name, ast.Attribute)) for x in inner) \
+                    and (not isinstance(v, ast.Dict) or all(isinstance(k, ast.Constant) for k in v.keys)):
+                out[tg[0].id] = v
+    cache[rel] = {k: v for k, v in out.items() if count.get(k) == 1}
+    return cache[rel]
+
+
+def _imported_from(ctx, mod, name):
+    """(rel, original name) when the module imports `name` from a sibling module of its package, else None"""
+    import os
+    for st in mod.tree.body:
+        if not isinstance(st, ast.ImportFrom) or not st.module:
+            continue
+        for al in st.names:
+            if (al.asname or al.name) != name:
+                continue
+            if st.level == 1:
+                return os.path.join(os.path.dirname(mod.rel), *st.module.split(".")) + ".py", al.name
+            if st.level == 0 and st.module.startswith("pyyeti."):
+                return os.path.join(*st.module.split(".")) + ".py", al.name
+    return None
+
+
 class Opts:
     def __init__(self, classes=(), exclude=(), erase_loop_index=False, models=None, max_depth=8, elem_hook=None, load_hook=None, erase_T=True):
         self.classes = list(classes)        # [(file, class name)] in method resolution order
@@ -466,11 +568,30 @@ class Opts:
         self.erase_T = erase_T
 
 
+_PI_NAMES = {"math.tau": 2, "cmath.tau": 2, "cmath.pi": 1, "numpy.pi": 1, "scipy.pi": 1, "scipy.constants.pi": 1}
+
+
+def _pi_multiple(x):
+    """a float literal that is exactly the double `q * pi ** n` evaluates to (q a small power of two, n = 1, 2): that product, else None"""
+    import math
+    from fractions import Fraction
+    if not (x == x) or x in (float("inf"), float("-inf")) or x == 0:
+        return None
+    for n in (1, 2):
+        for q in (Fraction(1), Fraction(2), Fraction(4), Fraction(8), Fraction(1, 2), Fraction(1, 4)):
+            for sgn in (1, -1):
+                if x == sgn * float(q) * math.pi ** n:
+                    return F.const(sgn * q) * F.sym("pi") ** n
+    return None
+
+
 _TRIVIAL_INDEX = {"None", "np.newaxis", "numpy.newaxis", "Ellipsis"}
 _SOLVES = {"la.solve": "solve", "np.linalg.solve": "solve", "scipy.linalg.solve": "solve", "linalg.solve": "solve", "numpy.linalg.solve": "solve",
            "la.lu_solve": "lu_solve", "scipy.linalg.lu_solve": "lu_solve", "linalg.lu_solve": "lu_solve"}
 _SOLVE_PARAMS = {"solve": ("a", "b"), "lu_solve": ("lu_and_piv", "b")}
 _PRODUCTS = {"np.matmul", "np.dot", "np.multiply", "np.outer", "numpy.matmul", "numpy.dot", "np.inner"}
+_UFUNC_OUTER = {"np.subtract.outer": ast.Sub, "np.add.outer": ast.Add, "np.multiply.outer": ast.Mult, "np.divide.outer": ast.Div,
+                "numpy.subtract.outer": ast.Sub, "numpy.add.outer": ast.Add, "numpy.multiply.outer": ast.Mult}
 _ARRAY_CTORS = {"np.zeros", "np.empty", "np.zeros_like", "np.empty_like", "numpy.zeros", "numpy.empty"}
 _ONE = {"np.eye", "np.identity", "np.ones", "np.ones_like"}
 _CMP_UFUNCS = {"np.not_equal": ast.NotEq, "np.equal": ast.Eq, "np.greater": ast.Gt, "np.less": ast.Lt, "np.greater_equal": ast.GtE,
@@ -697,6 +818,20 @@ class PathEval(AutoEvaluator):
             one selector on axis k > 0       -> ax<k>(selector)                    X[:, M]
             several                          -> tuple(per axis: selector or ':')   X[I, J]"""
         elts = sl.elts if isinstance(sl, ast.Tuple) else [sl]
+        if any(isinstance(e, ast.Constant) and e.value is Ellipsis for e in elts):
+            # (inserted axes select nothing)
+            elts = [e for e in elts if not ((isinstance(e, ast.Constant) and e.value is None) or dotted(e) in ("np.newaxis", "numpy.newaxis"))] or elts
+        if len(elts) == 2 and isinstance(elts[0], ast.Constant) and elts[0].value is Ellipsis and not (isinstance(elts[1], ast.Constant) and elts[1].value in (None, Ellipsis)):
+            # X[..., S]: a selector on the LAST axis, whatever the number of axes (axis 0 of a vector, the column axis of a rows x columns array)
+            r = self._index_value(elts[1])
+            if r is None:
+                return None
+            ur = unfn(r)
+            if ur is not None and (ur[0].startswith("ax") or ur[0] == "tuple"):
+                raise Unsupported("an index object behind an ellipsis")
+            return F.fn("axL", r)
+        if any(isinstance(e, ast.Constant) and e.value is Ellipsis for e in elts[:-1]) and len(elts) > 1:
+            raise Unsupported("an ellipsis in front of / between several selectors")
         axes = []          # per remaining axis: a value, or None for a full slice
         for e in elts:
             if isinstance(e, ast.Slice):
@@ -717,6 +852,9 @@ class PathEval(AutoEvaluator):
             v = self._ev(e)
             if is_unknown(v):
                 raise Unsupported(v.why)
+            if isinstance(v, tuple) and len(v) == 1 and isinstance(e, ast.List) and len(elts) > 1 and not is_unknown(v[0]) and not isinstance(v[0], (tuple, DictValue)) \
+                    and (sym_name(v[0]) in self.trace.loop_syms or v[0].is_const()):
+                v = v[0]          # X[:, [k]] keeps the axis like X[:, k:k+1]: the same selection as the position k for the element-wise formulas
             if isinstance(v, tuple):
                 if any(is_unknown(x) or isinstance(x, tuple) for x in v):
                     raise Unsupported("nested tuple index")
@@ -725,6 +863,7 @@ class PathEval(AutoEvaluator):
             if s in _TRIVIAL_INDEX:
                 continue
             if self.opts.erase_loop_index and s in self.trace.loop_syms:
+                self._erased += 1
                 continue
             uo = unfn(v)
             if uo is not None and uo[0] == "s_" and len(uo[1]) == 1 and not isinstance(uo[1][0], str):
@@ -751,6 +890,40 @@ class PathEval(AutoEvaluator):
             return F.sym(self._ident(node.id))
         if isinstance(node, ast.Name) and isinstance(node.ctx, ast.Load) and node.id not in self.env and hasattr(node, "lineno") and self._never_bound(node.id):
             self.trace.unbound.append((node, getattr(self.fn, "name", "<lambda>"), node.id))
+        if isinstance(node, ast.Name) and isinstance(node.ctx, ast.Load) and self.rel and node.id not in self.env and node.id not in self.buffers \
+                and node.id not in self.views and node.id in _module_lambdas(self.ctx, self.rel):
+            return self._module_scope().ev(_module_lambdas(self.ctx, self.rel)[node.id])          # a function (table) defined at module level
+        if isinstance(node, ast.Constant) and isinstance(node.value, float):
+            r = _pi_multiple(node.value)
+            if r is not None:
+                return r          # the double nearest to q pi^n, written out: what `q * np.pi ** n` evaluates to
+        if isinstance(node, ast.Attribute) and dotted(node) in _PI_NAMES and dotted(node) not in self.env and dotted(node).split(".")[0] not in self.env:
+            return F.const(_PI_NAMES[dotted(node)]) * F.sym("pi")
+        if isinstance(node, ast.Attribute) and node.attr == "T" and not self.erase_T and dotted(node) not in self.env:
+            tv = self._ev(node.value)
+            if tv is None or is_unknown(tv) or isinstance(tv, (tuple, DictValue)):
+                return tv if is_unknown(tv) else Unknown("transpose of a sequence")
+            return F.fn("attr:T", need(tv))
+        if isinstance(node, ast.BoolOp) and any(isinstance(x, (ast.Call, ast.NamedExpr, ast.Yield, ast.YieldFrom, ast.Await)) for v_ in node.values[1:] for x in ast.walk(v_)):
+            # `a and f(...)` / `a or f(...)`: an operand behind a deciding one is not evaluated (what it would store does not happen)
+            stop = isinstance(node.op, ast.Or)
+            vals = []
+            for k, operand in enumerate(node.values):
+                x = self.ev(operand)
+                if x is None or is_unknown(x) or isinstance(x, (tuple, DictValue)):
+                    if k < len(node.values) - 1:
+                        self.trace.undecided.append((operand, getattr(self.fn, "name", "<lambda>")))
+                    return x if is_unknown(x) else Unknown("a sequence as an operand of and / or")
+                vals.append(need(x))
+                if k == len(node.values) - 1:
+                    break
+                t = self.config.truth(x)
+                if t is None:
+                    self.trace.undecided.append((operand, getattr(self.fn, "name", "<lambda>")))
+                    return Unknown(f"undecided operand {ast.unparse(operand)} in front of a call")
+                if t is stop:
+                    break
+            return vals[0] if len(vals) == 1 else F.fn("bool:" + type(node.op).__name__, *vals)
         if isinstance(node, ast.Lambda):
             return self._closure(node)
         if isinstance(node, (ast.Yield, ast.YieldFrom)):
@@ -760,6 +933,14 @@ class PathEval(AutoEvaluator):
             cc = _class_consts(self.ctx, self.opts.classes)
             if node.attr in cc and ("self." + node.attr) not in self.config_keys():
                 return self._ev(cc[node.attr])          # a constant of the class
+            pf = self._resolve(f"self.{node.attr}") if node.value.id == "self" and isinstance(node.ctx, ast.Load) else None
+            if pf is not None and any(dotted(d) in ("property", "functools.cached_property", "cached_property") for d in pf.decorator_list) \
+                    and self.depth < self.opts.max_depth and pf not in self.stack:
+                # a property of the class: the value its getter returns
+                call = ast.fix_missing_locations(ast.copy_location(ast.Call(func=node, args=[], keywords=[]), node))
+                r = self._inline(pf, call, f"self.{node.attr}")
+                if r is not NotImplemented:
+                    return r
         if isinstance(node, ast.Subscript) and dotted(node.value) in _INDEX_MAKERS and dotted(node.value).split(".")[0] not in self.env:
             try:
                 ix = self._index_value(node.slice)
@@ -792,16 +973,36 @@ class PathEval(AutoEvaluator):
                 elif kv is not None and not is_unknown(kv) and not isinstance(kv, (tuple, DictValue)) and kv.is_const():
                     c = kv.const_value()
                     key = int(c) if c.denominator == 1 else float(c)
+                elif ks in ("True", "False", "None"):
+                    key = {"True": True, "False": False, "None": None}[ks]
+                elif set(base.d) <= {True, False, 0, 1} and kv is not None and not is_unknown(kv) and not isinstance(kv, (tuple, DictValue)):
+                    u_ = unfn(kv)
+                    if u_ is not None and (u_[0] in ("call:bool", "not") or u_[0].startswith(("cmp:", "bool:"))):
+                        key = self.config.truth(kv)          # a table keyed by a truth value the configuration decides
                 if key is not None and key in base.d:
                     return base.d[key]
                 return Unknown(f"key {ast.unparse(node.slice)} of a literal table")
             if isinstance(base, tuple):
+                if isinstance(node.slice, ast.Tuple) and len(node.slice.elts) >= 2 and all(
+                        (isinstance(e, ast.Constant) and e.value is Ellipsis) or (isinstance(e, ast.Slice) and e.lower is None and e.upper is None and e.step is None)
+                        for e in node.slice.elts[:-1]) and sum(1 for e in node.slice.elts if isinstance(e, ast.Constant) and e.value is Ellipsis) <= 1:
+                    # a vector held entry by entry stands for the last axis: leading `:` / `...` select nothing
+                    return self._ev(ast.copy_location(ast.Subscript(value=node.value, slice=node.slice.elts[-1], ctx=ast.Load()), node))
                 r = super()._ev(node)
                 return r
+            self._erased = 0
             try:
                 ix = self._index_value(node.slice)
             except Unsupported as e:
                 return Unknown(str(e))
+            ut = unfn(base) if not isinstance(node.slice, ast.Tuple) else None
+            if ut is not None and ut[0] == "attr:T" and len(ut[1]) == 1 and not isinstance(ut[1][0], str):
+                # X.T[i] is X[:, i] (a row of the transpose is a column of the array)
+                if ix is None and self._erased == 1:
+                    return ut[1][0]
+                ui = unfn(ix) if ix is not None else None
+                if ix is not None and (ui is None or not (ui[0].startswith("ax") or ui[0] == "tuple")):
+                    return F.fn("idx", ut[1][0], F.fn("ax1", ix))
             if self.opts.load_hook is not None:
                 r = self.opts.load_hook(self, base, ix)
                 if r is not NotImplemented:
@@ -814,6 +1015,8 @@ class PathEval(AutoEvaluator):
             root = dotted(node).split(".")[0]
             if root in self.env and root not in self.buffers:
                 b = self.ev(node.value)
+                if isinstance(b, Record):
+                    return b[b.fields.index(node.attr)] if node.attr in b.fields else Unknown(f"field {node.attr} of a record")
                 s_ = sym_name(b)
                 if s_ is not None and s_ not in self.trace.idents and s_ != "None" and s_[:1] not in "'\"":
                     return F.sym(f"{s_}.{node.attr}")
@@ -897,6 +1100,10 @@ class PathEval(AutoEvaluator):
         if counter is None:
             counter = F.sym(self.trace.fresh("<k>"))
             self.trace.loop_syms.add(sym_name(counter))
+        ut = unfn(itv)
+        if ut is not None and ut[0] == "attr:T" and len(ut[1]) == 1 and not isinstance(ut[1][0], str):
+            # iterating over X.T: the columns of X
+            return ut[1][0] if self.opts.erase_loop_index else F.fn("idx", ut[1][0], F.fn("ax1", counter))
         if self.opts.erase_loop_index:
             return itv
         return F.fn("idx", need(itv), counter)
@@ -904,6 +1111,14 @@ class PathEval(AutoEvaluator):
     # ---- calls
     def _callee_name(self, node):
         d = dotted(node.func)
+        if d is None and isinstance(node.func, ast.Attribute):
+            v = node.func.value
+            if isinstance(v, ast.Call) and dotted(v.func) == "super" and not v.keywords and len(v.args) in (0, 2) and "super" not in self.env:
+                return f"super().{node.func.attr}"
+            if isinstance(v, ast.Call) and dotted(v.func) == "type" and len(v.args) == 1 and not v.keywords and dotted(v.args[0]) == "self" and "type" not in self.env:
+                return f"type(self).{node.func.attr}"
+        if d is not None and d.startswith("self.__class__.") and d.count(".") == 2:
+            return f"type(self).{d.split('.')[2]}"
         if isinstance(node.func, ast.Name) and node.func.id in self.env and node.func.id not in self.buffers:
             s = sym_name(self.env[node.func.id])
             if s is not None and s not in self.trace.idents:
@@ -962,6 +1177,19 @@ class PathEval(AutoEvaluator):
 
     _generic = 0
     _yield_bad = False
+    _erased = 0           # loop counters dropped by the last `_index_value`
+
+    def _module_scope(self):
+        """an evaluator for the top level of the module of the evaluated function: lambdas defined there read that scope (its constants), not the
+        locals of whoever calls them"""
+        tab = self.trace.__dict__.setdefault("_modscopes", {})
+        ms = tab.get(self.rel)
+        if ms is None:
+            ms = PathEval(None, self.ctx, self.config, self.opts, trace=self.trace, depth=self.depth)
+            ms.rel, ms.module_consts = self.rel, self.module_consts
+            tab[self.rel] = ms
+        ms.config = self.config
+        return ms
 
     def _closure(self, node):
         """a function defined inside the evaluated one (nested def, lambda): a value of its own that remembers where it was defined"""
@@ -969,9 +1197,34 @@ class PathEval(AutoEvaluator):
         self.trace.closures[nm] = (node, self)
         return F.sym(nm)
 
+    def _own_class(self):
+        """position in `opts.classes` of the class the evaluated function is a method of (None: not a method of one of them)"""
+        for f in (self.fn,) + tuple(self._outer):
+            for i, (rel, cls) in enumerate(self.opts.classes):
+                try:
+                    if f is not None and self.ctx.src.mod(rel).funcs.get(f"{cls}.{getattr(f, 'name', '')}") is f:
+                        return i
+                except Exception:  # noqa
+                    continue
+        return None
+
     def _resolve(self, name):
         if name is None or name in self.opts.exclude:
             return None
+        if name.startswith("super()."):
+            # the method of that name in the classes after the one the evaluated function belongs to
+            if "self." + name[8:] in self.opts.exclude:
+                return None
+            i = self._own_class()
+            if i is None:
+                return None
+            for rel, cls in self.opts.classes[i + 1:]:
+                f = self.ctx.src.mod(rel).funcs.get(f"{cls}.{name[8:]}")
+                if f is not None:
+                    return f
+            return None
+        if name.startswith("type(self)."):
+            return self._resolve("self." + name[11:])
         if name.startswith("self.") and name.count(".") == 1:
             for rel, cls in self.opts.classes:
                 f = self.ctx.src.mod(rel).funcs.get(f"{cls}.{name[5:]}")
@@ -987,11 +1240,14 @@ class PathEval(AutoEvaluator):
         if name.count(".") == 1:
             # a static method called through the class: `SolveUnc._rb_integrate(...)`
             cn, mn = name.split(".")
-            if any(cn == c for _, c in self.opts.classes):
-                for rel, cls in self.opts.classes:
+            if any(cn == c for _, c in self.opts.classes) and cn not in self.env:
+                if f"self.{mn}" in self.opts.exclude:
+                    return None
+                k0 = next(i for i, (_, c) in enumerate(self.opts.classes) if c == cn)
+                for rel, cls in self.opts.classes[k0:]:
                     f = self.ctx.src.mod(rel).funcs.get(f"{cls}.{mn}")
                     if f is not None:
-                        return f if any(isinstance(d, ast.Name) and d.id == "staticmethod" for d in f.decorator_list) else None
+                        return f          # static / class method, or an ordinary method handed `self` explicitly (`_inline` checks)
         return None
 
     def _call(self, node):
@@ -1001,6 +1257,25 @@ class PathEval(AutoEvaluator):
 
     def _call2(self, node):
         name = self._callee_name(node)
+        if name is not None and self.opts.exclude and isinstance(node.func, ast.Attribute):
+            # a method the rule keeps opaque, reached through super() / type(self) / the class with an explicit self: the same opaque call
+            alt, drop = None, False
+            if name.startswith("super()."):
+                alt = "self." + name[8:]
+            elif name.startswith("type(self)."):
+                alt = "self." + name[11:]
+            elif name.count(".") == 1 and any(name.split(".")[0] == c for _, c in self.opts.classes) and name.split(".")[0] not in self.env \
+                    and node.args and dotted(node.args[0]) == "self":
+                alt, drop = "self." + name.split(".")[1], True
+            if alt in self.opts.exclude:
+                f2 = ast.Attribute(value=ast.Name(id="self", ctx=ast.Load()), attr=alt[5:], ctx=ast.Load())
+                call = ast.Call(func=f2, args=list(node.args[1:] if drop else node.args), keywords=list(node.keywords))
+                return self._call2(ast.fix_missing_locations(ast.copy_location(call, node)))
+        if name == "vars" and len(node.args) == 1 and not node.keywords and "vars" not in self.env:
+            ov = self.ev(node.args[0])
+            sc = split_call(ov) if ov is not None and not is_unknown(ov) and not isinstance(ov, (tuple, DictValue)) else None
+            if sc is not None and sc[0] in _NAMESPACES and not sc[1]:
+                return DictValue(dict(sc[2]))          # the fields of a namespace built here
         if name in _REFLECTIVE or (name is None and not isinstance(node.func, ast.Attribute)):
             # code the evaluator cannot see: whatever it writes is missing from the trace
             self.trace.lost.append((node, getattr(self.fn, "name", "<lambda>"), f"the call `{ast.unparse(node.func)}(...)`, whose callee is not known"))
@@ -1018,8 +1293,29 @@ class PathEval(AutoEvaluator):
                 nm = f"<partial:{tn}#{len(self.trace.closures)}>"
                 self.trace.closures[nm] = ("partial", tn, [self.ev(x) for x in node.args[1:]], {k.arg: self.ev(k.value) for k in node.keywords})
                 return F.sym(nm)
+            if tn is not None and tn not in self.trace.idents and dotted(node.args[0]) == tn and tn.startswith(_PURE_PREFIX):
+                # a partial application of a library function: called later with the arguments given here put in front
+                nm = f"<libpartial:{tn}#{len(self.trace.closures)}>"
+                self.trace.closures[nm] = ("libpartial", node.args[0], [self.ev(x) for x in node.args[1:]], {k.arg: self.ev(k.value) for k in node.keywords})
+                return F.sym(nm)
+        if name is not None and "." not in name and self.rel and name not in self.env and name not in self.trace.closures \
+                and isinstance(_module_lambdas(self.ctx, self.rel).get(name), ast.Lambda):
+            name = sym_name(self._module_scope().ev(_module_lambdas(self.ctx, self.rel)[name]))          # a lambda bound to a module-level name
         cl = self.trace.closures.get(name)
         pre = None
+        if cl is not None and cl[0] == "libpartial" and not any(isinstance(x, ast.Starred) for x in node.args) and not any(k.arg is None for k in node.keywords):
+            # the library call it stands for: the arguments fixed by the partial are values held under private names
+            pos, kws = [], []
+            for j, pv in enumerate(cl[2]):
+                self.env[f"<parg{j}>"] = pv
+                pos.append(ast.Name(id=f"<parg{j}>", ctx=ast.Load()))
+            given = {k.arg for k in node.keywords}
+            for kk, pv in cl[3].items():
+                if kk not in given:
+                    self.env[f"<pkw:{kk}>"] = pv
+                    kws.append(ast.keyword(arg=kk, value=ast.Name(id=f"<pkw:{kk}>", ctx=ast.Load())))
+            call = ast.Call(func=cl[1], args=pos + list(node.args), keywords=kws + list(node.keywords))
+            return self._call(ast.fix_missing_locations(ast.copy_location(call, node)))
         if cl is not None and cl[0] == "partial":
             pname = name
             pre = (list(cl[2]), dict(cl[3]))
@@ -1078,17 +1374,57 @@ class PathEval(AutoEvaluator):
         if name in ("np.add", "np.subtract", "np.divide", "np.true_divide", "np.power") and len(args) == 2 and not node.keywords:
             op = {"np.add": ast.Add, "np.subtract": ast.Sub, "np.divide": ast.Div, "np.true_divide": ast.Div, "np.power": ast.Pow}[name]()
             return self._ev(ast.copy_location(ast.BinOp(left=args[0], op=op, right=args[1]), node))
+        if not self.erase_T and ((name in ("np.transpose", "numpy.transpose") and len(args) == 1 and not node.keywords)
+                                 or (isinstance(node.func, ast.Attribute) and node.func.attr == "transpose" and not args and not node.keywords
+                                     and name not in ("np.transpose", "numpy.transpose"))):
+            tv = self.ev(args[0] if args else node.func.value)
+            if tv is not None and not is_unknown(tv) and not isinstance(tv, (tuple, DictValue)):
+                return F.fn("attr:T", need(tv))          # one value for X.T, np.transpose(X), X.transpose()
+        if name in ("np.flatnonzero", "numpy.flatnonzero") and len(args) == 1 and not node.keywords:
+            # the positions of the non-zero entries, in order: selects what the mask `x != 0` selects
+            return self._ev(ast.copy_location(ast.Compare(left=args[0], ops=[ast.NotEq()], comparators=[ast.Constant(value=0)]), node))
+        if (name in ("np.take", "numpy.take") and len(args) == 2) or (isinstance(node.func, ast.Attribute) and node.func.attr == "take" and len(args) == 1
+                                                                      and name not in ("np.take", "numpy.take")):
+            axn = [k.value for k in node.keywords if k.arg == "axis"]
+            if len(axn) == len(node.keywords) and all(isinstance(x, ast.Constant) and isinstance(x.value, int) and x.value >= 0 for x in axn):
+                bn, ixn = (args[0], args[1]) if len(args) == 2 else (node.func.value, args[0])
+                ax = axn[0].value if axn else 0
+                sl = ixn if ax == 0 else ast.Tuple(elts=[ast.Slice() for _ in range(ax)] + [ixn], ctx=ast.Load())
+                return self._ev(ast.fix_missing_locations(ast.copy_location(ast.Subscript(value=bn, slice=sl, ctx=ast.Load()), node)))
+        if isinstance(node.func, ast.Attribute) and node.func.attr == "__setitem__" and len(args) == 2 and not node.keywords:
+            tgt = ast.Subscript(value=node.func.value, slice=args[0], ctx=ast.Store())
+            asg = ast.fix_missing_locations(ast.copy_location(ast.Assign(targets=[tgt], value=args[1]), node))
+            if isinstance(node.func.value, ast.Name) and (node.func.value.id in self.buffers or node.func.value.id in self.env):
+                self._assign(tgt, self.ev(args[1]), asg)
+                return NONE
+        if name == "complex" and 1 <= len(args) <= 2 and not node.keywords and "complex" not in self.env:
+            vs = [self.ev(x) for x in args]
+            if any(v is None or is_unknown(v) or isinstance(v, (tuple, DictValue)) for v in vs):
+                return next((v for v in vs if is_unknown(v)), Unknown("complex() of a sequence"))
+            return need(vs[0]) if len(vs) == 1 else need(vs[0]) + F.I * need(vs[1])
+        if name in ("np.reciprocal", "numpy.reciprocal") and len(args) == 1 and not node.keywords:
+            return self._ev(ast.copy_location(ast.BinOp(left=ast.Constant(value=1), op=ast.Div(), right=args[0]), node))
+        if name in _UFUNC_OUTER and len(args) == 2 and not node.keywords:
+            # ufunc.outer(a, b): a[:, None] <op> b[None, :] - element-wise in the formulas compared here
+            return self._ev(ast.copy_location(ast.BinOp(left=args[0], op=_UFUNC_OUTER[name](), right=args[1]), node))
         if name in ("np.square",) and len(args) == 1:
             v = self.ev(args[0])
             return v if is_unknown(v) or isinstance(v, tuple) else need(v) * need(v)
         if name in _ONE:
             return F.const(1)
-        if name in _ARRAY_CTORS:
+        fill = None
+        if name in ("np.full", "np.full_like", "numpy.full", "numpy.full_like"):
+            fn_ = args[1] if len(args) >= 2 else next((k.value for k in node.keywords if k.arg == "fill_value"), None)
+            fill = self.ev(fn_) if fn_ is not None else None
+            if fill is None or is_unknown(fill) or isinstance(fill, (tuple, DictValue)) or not need(fill).is_const():
+                fill = None
+        if name in _ARRAY_CTORS or fill is not None:
             # a new array: one identity, whoever fills it later; named after the local it is bound to first (`_assign`)
             self._record(name, node)
             i = self.trace.fresh("<array>")
             # (np.empty: whatever was in memory - not zeros)
-            self.trace.init[i] = F.sym("<uninitialised memory>") if name.rsplit(".", 1)[-1] in ("empty", "empty_like") else F.const(0)
+            self.trace.init[i] = fill if fill is not None else (
+                F.sym("<uninitialised memory>") if name.rsplit(".", 1)[-1] in ("empty", "empty_like") else F.const(0))
             self.trace.created.add(i)
             return F.sym(i)
         if name in _STACKS and len(args) >= 1:
@@ -1099,6 +1435,27 @@ class PathEval(AutoEvaluator):
             sv = self.ev(args[0])
             if isinstance(sv, tuple):
                 return sv                      # a sequence the evaluator holds item by item
+        if name is not None and "." not in name and self.rel and name not in self.env and not any(isinstance(x, ast.Starred) for x in args) \
+                and not any(k.arg is None for k in node.keywords):
+            nt = _namedtuples(self.ctx, self.rel).get(name)
+            if nt is None:
+                imp = _imported_from(self.ctx, self.ctx.src.mod(self.rel), name)
+                nt = _namedtuples(self.ctx, imp[0]).get(imp[1]) if imp else None
+            if nt is not None and len(args) <= len(nt[0]):
+                got = dict(zip(nt[0], [self.ev(x) for x in args]))
+                okk = True
+                for k in node.keywords:
+                    if k.arg not in nt[0] or k.arg in got:
+                        okk = False
+                    got[k.arg] = self.ev(k.value)
+                for f_, dn in nt[1].items():
+                    got.setdefault(f_, self.ev(dn))
+                if okk and all(f_ in got for f_ in nt[0]):
+                    return Record.make(nt[0], [got[f_] for f_ in nt[0]])
+        if name == "dict" and "dict" not in self.env and len(args) <= 1 and not any(isinstance(x, ast.Starred) for x in args):
+            r = self._dict_call(node)
+            if r is not NotImplemented:
+                return r
         if isinstance(node.func, ast.Attribute) and node.func.attr == "append" and len(args) == 1 and not node.keywords \
                 and isinstance(node.func.value, ast.Name) and isinstance(self.env.get(node.func.value.id), tuple) \
                 and node.func.value.id not in self.buffers and node.func.value.id not in self.pinned:
@@ -1262,11 +1619,44 @@ class PathEval(AutoEvaluator):
             return int(c) if c.denominator == 1 else float(c)
         return NotImplemented
 
+    def _dict_call(self, node):
+        """dict(k=v, ...), dict(zip(keys, values)), dict([(k, v), ...]), dict(table, k=v): a table held item by item when every key is a literal"""
+        out = {}
+        if node.args:
+            a0 = node.args[0]
+            v0 = self.ev(a0) if not (isinstance(a0, ast.Call) and dotted(a0.func) in ("zip", "enumerate")) else None
+            if isinstance(v0, DictValue):
+                out.update(v0.d)
+            else:
+                items = self._literal_items(a0) if v0 is None or isinstance(v0, tuple) else None
+                if items is None:
+                    return NotImplemented
+                for it in items:
+                    if not isinstance(it, tuple) or len(it) != 2:
+                        return NotImplemented
+                    key = self._literal_key(it[0])
+                    if key is NotImplemented:
+                        return NotImplemented
+                    out[key] = it[1]
+        for k in node.keywords:
+            v = self.ev(k.value)
+            if k.arg is None:
+                if not isinstance(v, DictValue):
+                    return NotImplemented
+                out.update(v.d)
+            else:
+                out[k.arg] = v
+        return DictValue(out)
+
     def _container_method(self, node):
         """a method of a dict / list the evaluator holds item by item: pop / get with a literal key are executed; a method that may change the
         container in a way that is not modelled makes the container unknown (never: leaves it as it was)"""
         cur = self.env[node.func.value.id]
         meth = node.func.attr
+        if isinstance(cur, DictValue) and meth in ("values", "keys", "items") and not node.args and not node.keywords and all(isinstance(k, (str, int)) for k in cur.d):
+            ks = [F.sym(repr(k)) if isinstance(k, str) else F.const(k) for k in cur.d]
+            vs = list(cur.d.values())
+            return tuple({"items": [(k, v) for k, v in zip(ks, vs)], "values": vs, "keys": ks}[meth])
         if meth in _PURE_METHODS or (meth == "append" and isinstance(cur, tuple)):
             if isinstance(cur, DictValue) and meth == "get" and 1 <= len(node.args) <= 2 and not node.keywords:
                 key = self._literal_key(self.ev(node.args[0]))
@@ -1281,6 +1671,13 @@ class PathEval(AutoEvaluator):
                     self._rebind(cur, DictValue({k: v for k, v in cur.d.items() if k != key}))
                     return r
                 return self.ev(node.args[1])
+        if isinstance(cur, tuple) and meth == "pop" and len(node.args) <= 1 and not node.keywords and cur and not self._generic:
+            kv = self.ev(node.args[0]) if node.args else F.const(-1)
+            if kv is not None and not is_unknown(kv) and not isinstance(kv, (tuple, DictValue)) and kv.is_const() and kv.const_value().denominator == 1 \
+                    and -len(cur) <= int(kv.const_value()) < len(cur):
+                k = int(kv.const_value()) % len(cur)
+                self._rebind(cur, cur[:k] + cur[k + 1:])
+                return cur[k]
         why = Unknown(f"`{node.func.value.id}` after .{meth}()")
         self._rebind(cur, why)
         return why
@@ -1357,8 +1754,18 @@ class PathEval(AutoEvaluator):
     def _inline(self, fn2, node, name, closure=None, pre=None):
         a = fn2.args
         params = [x.arg for x in a.posonlyargs + a.args]
-        static = any(isinstance(d, ast.Name) and d.id == "staticmethod" for d in getattr(fn2, "decorator_list", ()))
+        decos = [dotted(d) for d in getattr(fn2, "decorator_list", ())]
+        static = "staticmethod" in decos
+        explicit_self = False
         if closure is None and params and params[0] in ("self", "cls") and "." in name and not static:
+            bound = name.startswith(("self.", "super().")) or "classmethod" in decos
+            if not bound and not name.startswith("type(self)."):
+                # Cls.method(self, ...): the instance is the first argument
+                if not node.args or isinstance(node.args[0], ast.Starred) or dotted(node.args[0]) != "self" or "self" in self.env:
+                    return NotImplemented
+                explicit_self = True
+            elif not bound:
+                return NotImplemented          # type(self).method(...) of an ordinary method: not modelled
             params = params[1:]
         if a.vararg or a.kwarg:
             return NotImplemented
@@ -1368,6 +1775,8 @@ class PathEval(AutoEvaluator):
         if cv is None:
             return NotImplemented
         pos, kws = cv
+        if explicit_self:
+            pos = pos[1:]
         if pre is not None:
             pos, kws = list(pre[0]) + pos, {**pre[1], **kws}
         if len(pos) > len(params):
@@ -1494,8 +1903,12 @@ class PathEval(AutoEvaluator):
                 for tv, _ in getattr(self.config, "taken", ())[n0:]:
                     self.trace.forked.append((st.test, self.fn.name, vkey(tv)))
             return super().stmt(st)
-        if isinstance(st, ast.For) and not st.orelse:
-            return self._for(st)
+        if isinstance(st, ast.For) and (not st.orelse or not any(isinstance(x, ast.Break) for x in ast.walk(st))):
+            # (an `else` arm of a loop that has no `break` simply runs after the loop)
+            self._for(st)
+            if st.orelse and not self.done and not self.trace.raised:
+                self.run(st.orelse)
+            return
         if isinstance(st, ast.While):
             return self._while(st)
         if isinstance(st, ast.With):
@@ -1572,47 +1985,100 @@ class PathEval(AutoEvaluator):
             if not isinstance(target, ast.Name):
                 return False
             self._assign(target, counter(target), st)
-        elif isinstance(it, ast.Call) and dotted(it.func) == "enumerate" and len(it.args) == 1 and isinstance(target, (ast.Tuple, ast.List)) \
-                and len(target.elts) == 2 and isinstance(target.elts[0], ast.Name):
-            c = counter(target.elts[0])
-            self._assign(target.elts[0], c, st)
-            self._assign(target.elts[1], self._element(self.ev(it.args[0]), c), st)
-        elif isinstance(it, ast.Call) and dotted(it.func) == "zip" and it.args and not it.keywords and isinstance(target, (ast.Tuple, ast.List)) \
-                and len(target.elts) == len(it.args):
-            # the k-th items of every sequence: one counter
-            c = counter(ast.Name(id="<k>"))
-            for t, a in zip(target.elts, it.args):
-                st0 = self._count_start(a)
-                if st0 is None and isinstance(a, ast.Call) and dotted(a.func) == "range" and len(a.args) == 1 and not a.keywords:
-                    self.ev(a.args[0])
-                    st0 = F.const(0)
-                if st0 is not None:
-                    self._assign(t, c + st0, st)          # a counter column: the position itself
-                else:
-                    self._assign(t, self._element(self.ev(a), c), st)
+        elif isinstance(it, ast.Call) and dotted(it.func) in ("enumerate", "zip") and not it.keywords and it.args and isinstance(target, (ast.Tuple, ast.List)):
+            # the k-th items of every sequence (enumerate / zip, nested in any way): one counter for all of them
+            first = target.elts[0] if dotted(it.func) == "enumerate" and target.elts and isinstance(target.elts[0], ast.Name) else ast.Name(id="<k>")
+            c = counter(first)
+            v = self._generic_of(it, c)
+            if v is NotImplemented:
+                return False
+            self._assign(target, v, st)
         else:
             itv = self.ev(it)
             self._assign(target, self._element(itv, None), st)
         return True
 
+    def _generic_of(self, it, c):
+        """the item at the generic position `c` of an iterable expression: range(n) / itertools.count(k) are the position itself, enumerate and zip
+        give the tuple of the items of their arguments at that position, anything else its generic element"""
+        if isinstance(it, ast.Call) and not it.keywords and not any(isinstance(a, ast.Starred) for a in it.args):
+            d = dotted(it.func)
+            st0 = self._count_start(it)
+            if st0 is not None:
+                return c + st0
+            if d == "range" and 1 <= len(it.args) <= 2:
+                bs = [self.ev(a) for a in it.args]
+                if any(b is None or is_unknown(b) or isinstance(b, (tuple, DictValue)) for b in bs):
+                    return NotImplemented
+                return c if len(bs) == 1 else c + need(bs[0])
+            if d == "enumerate" and 1 <= len(it.args) <= 2:
+                s0 = self.ev(it.args[1]) if len(it.args) == 2 else F.const(0)
+                if s0 is None or is_unknown(s0) or isinstance(s0, (tuple, DictValue)):
+                    return NotImplemented
+                x = self._generic_of(it.args[0], c)
+                return NotImplemented if x is NotImplemented else (c + need(s0), x)
+            if d == "zip" and it.args:
+                xs = [self._generic_of(a, c) for a in it.args]
+                return NotImplemented if any(x is NotImplemented for x in xs) else tuple(xs)
+            if d in ("list", "tuple", "iter") and len(it.args) == 1:
+                return self._generic_of(it.args[0], c)
+        return self._element(self.ev(it), c)
+
     def _while(self, st):
-        """a counted loop `while k < n: ...; k += 1`: evaluated once for a generic iteration with the counter a loop symbol"""
+        """a counted loop `while <comparison that reads k>: ...; k += c` (the increment first, last or in between; `k = k + c` is the same): evaluated
+        once for a generic iteration with the counter a loop symbol.  What the statements before the increment see is the generic position, what
+        the statements after it see is that position plus the step (with the increment first: the generic position itself, re-based)"""
         t = st.test
-        ctr = t.left.id if isinstance(t, ast.Compare) and isinstance(t.left, ast.Name) else None
-        incs = [x for x in ast.walk(st) if isinstance(x, ast.AugAssign) and isinstance(x.target, ast.Name) and x.target.id == ctr]
-        if ctr is None or len(incs) != 1 or incs[0] not in st.body or st.orelse:
+        # the loop is left through its test or through `if <test on the counter>: break` at the top level of its body
+        exits = [x for x in st.body if isinstance(x, ast.If) and len(x.body) == 1 and isinstance(x.body[0], ast.Break) and not x.orelse]
+        names = {x.id for e in [t] + [x.test for x in exits] for x in ast.walk(e) if isinstance(x, ast.Name)}
+        if not (isinstance(t, (ast.Compare, ast.Name)) or (isinstance(t, ast.Constant) and t.value in (True, 1) and exits)):
+            names = set()
+        found = []
+        for nm in sorted(names):
+            if nm in self.buffers:
+                continue
+            incs, other = [], 0
+            for x in ast.walk(st):
+                if isinstance(x, ast.AugAssign) and isinstance(x.target, ast.Name) and x.target.id == nm:
+                    if isinstance(x.op, (ast.Add, ast.Sub)) and isinstance(x.value, ast.Constant) and isinstance(x.value.value, int) and x.value.value != 0:
+                        incs.append((x, x.value.value if isinstance(x.op, ast.Add) else -x.value.value))
+                    else:
+                        other += 1
+                elif isinstance(x, ast.Assign) and any(isinstance(y, ast.Name) and y.id == nm and isinstance(y.ctx, ast.Store) for tg in x.targets for y in ast.walk(tg)):
+                    v = x.value
+                    if len(x.targets) == 1 and isinstance(x.targets[0], ast.Name) and isinstance(v, ast.BinOp) and isinstance(v.op, (ast.Add, ast.Sub)):
+                        l, r = v.left, v.right
+                        if isinstance(v.op, ast.Add) and isinstance(l, ast.Constant) and isinstance(r, ast.Name):
+                            l, r = r, l
+                        if isinstance(l, ast.Name) and l.id == nm and isinstance(r, ast.Constant) and isinstance(r.value, int) and r.value != 0:
+                            incs.append((x, r.value if isinstance(v.op, ast.Add) else -r.value))
+                            continue
+                    other += 1
+                elif isinstance(x, (ast.NamedExpr, ast.For, ast.comprehension, ast.withitem)) and any(
+                        isinstance(y, ast.Name) and y.id == nm and isinstance(y.ctx, ast.Store) for y in ast.walk(getattr(x, "target", None) or getattr(x, "optional_vars", None) or ast.Pass())):
+                    other += 1
+            if len(incs) == 1 and not other and incs[0][0] in st.body:
+                found.append((nm, incs[0][0], incs[0][1]))
+        if len(found) != 1 or st.orelse:
             self.trace.undecided.append((st.test, self.fn.name))
             return super().stmt(st)
+        ctr, inc, step = found[0]
         nm = self.trace.fresh(ctr)
         self.trace.loop_syms.add(nm)
-        self.env[ctr] = F.sym(nm)
+        first = st.body[0] is inc
+        self.env[ctr] = F.sym(nm) if not first else F.sym(nm) - F.const(step)
         self._cont = self._brk = False
         self._generic += 1
         for s_ in st.body:
-            if s_ is incs[0]:
-                continue
             if self.done or self._cont:
                 break
+            if s_ is inc:
+                self.env[ctr] = F.sym(nm) if first else F.sym(nm) + F.const(step)
+                continue
+            if s_ in exits and any(isinstance(x, ast.Name) and x.id == ctr for x in ast.walk(s_.test)) \
+                    and not any(isinstance(x, (ast.NamedExpr, ast.Call)) for x in ast.walk(s_.test)):
+                continue          # the exit test of the loop: false in the generic iteration
             self.stmt(s_)
         self._generic -= 1
         self._cont = self._brk = False
@@ -1686,6 +2152,21 @@ class PathEval(AutoEvaluator):
                 self.alias[target.id] = i
                 if v is None or is_unknown(v) or isinstance(v, DictValue) or (not isinstance(v, tuple) and _may_alias(v, self.trace)):
                     self.trace.opaque.add(i)       # bound to something that may be (a view of) an array of the trace
+            return
+        if isinstance(target, (ast.Tuple, ast.List)) and isinstance(v, tuple) and sum(1 for t in target.elts if isinstance(t, ast.Starred)) == 1 \
+                and len(v) >= len(target.elts) - 1:
+            # a, *rest, z = sequence held item by item
+            k = next(i for i, t in enumerate(target.elts) if isinstance(t, ast.Starred))
+            after = len(target.elts) - k - 1
+            for t, x in zip(target.elts[:k], v[:k]):
+                self._assign(t, x, st)
+            self._assign(target.elts[k].value, tuple(v[k:len(v) - after]), st)
+            for t, x in zip(target.elts[k + 1:], v[len(v) - after:] if after else ()):
+                self._assign(t, x, st)
+            return
+        if isinstance(target, (ast.Tuple, ast.List)) and any(isinstance(t, ast.Starred) for t in target.elts):
+            for t in target.elts:
+                self._assign(t.value if isinstance(t, ast.Starred) else t, Unknown("starred unpacking of a value that is not held item by item"), st)
             return
         if isinstance(target, (ast.Tuple, ast.List)) and not isinstance(v, tuple) and not is_unknown(v) and not isinstance(v, DictValue):
             # unpacking an opaque sequence value: its items by position
